@@ -32,9 +32,16 @@ fn base_file_with(twins: bool) -> Vec<u8> {
         b.meta.guid = Some("twin".into());
         a.meta.pose = Some(e57spec::model::Pose { rot: [0.5, 0.5, 0.5, 0.5], trans: [10.0, 20.0, 30.0] });
     }
+    // the payload of the first image blob starts with what looks like a blob section header of
+    // enormous length, so that a descriptor placed 16 bytes into it reads up to the end of the file
+    let mut first = image(4, true, 100, 3);
+    if let Some(v) = &mut first.visual {
+        v.blob.data[..8].fill(0);
+        v.blob.data[8..16].copy_from_slice(&u64::MAX.to_le_bytes());
+    }
     let p = Program {
         guid: "g".into(),
-        ops: vec![Op::Cloud(a), Op::Image(image(4, true, 100, 3)), Op::Cloud(b), Op::Image(image(1, false, 1500, 4))],
+        ops: vec![Op::Cloud(a), Op::Image(first), Op::Cloud(b), Op::Image(image(1, false, 1500, 4))],
         ..Default::default()
     };
     let dev = Dev::empty();
